@@ -275,6 +275,10 @@ func (r *storeRun) exec(st stepJ) repJ {
 		ctx = cache.WithSkipRead(ctx)
 	}
 
+	if op.Name == "Delete" && r.nctx%3 == 0 { // SkipRead is about reads: a Delete under such a context deletes
+		ctx = cache.WithSkipRead(ctx)
+	}
+
 	var key []byte
 	if op.K != "" {
 		if r.plain {
@@ -1164,6 +1168,10 @@ func TestBulkClean(t *testing.T) {
 					ctx := context.Background()
 					if cls != "never" {
 						ctx = cache.WithTTL(ctx, ttl[cls], false)
+					}
+
+					if cls == "old" && i%3 == 0 { // expired before 1970 (negative unix time): as old as it gets
+						ctx = cache.WithTTL(context.Background(), -60*365*24*time.Hour, false)
 					}
 
 					_ = be.Write(ctx, []byte(fmt.Sprintf("%s-%07d", cls, i)), "v1")
